@@ -7,6 +7,14 @@ taglink): an edit of the Python source that changes the meaning changes Gen/Site
 / `C12_code_*_is_model` obligation; an edit that keeps the meaning still translates and still proves (the proofs are
 symbolic executions of whatever term is generated).
 
+Normalisations (the meaning is kept, the spelling is not): annotated assignments; elif chains; conditional expressions
+(ECond); f-strings, `+` and `%`-format on str (EConcat); len / int + / slices with int bounds (ELen, EAddI, ESlice);
+a module-level PURE helper of linker.py whose body is assignments to locals and an if / return tree is INLINED as one
+expression; an attribute dict `{'href': u, 'class_': 'internal-link'}` with `d['title'] = t` and `tags.a(label, **d)` is
+rendered as the tag under construction (ETagA / ETagTitle / ETagLabel); `for x in self.<generator method>()` where the
+generator method, RUN on the fixture objects of gen_listings.py, yields the object and its containers up to the root is
+SFor over EChain.
+
 Fail-closed: a statement, expression, attribute, call or decorator outside the recognised shapes aborts the generation
 with `unrecognised shape`.  Checked on the LIVE classes (not translated): no class other than Documentable (and Module,
 for privacyClass) defines one of the translated members; documentation_location is OWN_PAGE for Module / Package /
